@@ -319,6 +319,12 @@ def nf(tree):
         return (k + "chain", tuple(items))
     if k == "notnull":
         return ("not", ("isnull", nf(tree[1])))
+    if k in ("eq", "ne"):
+        # Python evaluates a == b as b.__eq__(a) when type(b) is a subclass of type(a): the mirrored comparison is the same comparison
+        a, b = nf(tree[1]), nf(tree[2])
+        return (k,) + tuple(sorted((a, b), key=repr))
+    if k in ("gt", "ge"):
+        return ({"gt": "lt", "ge": "le"}[k], nf(tree[2]), nf(tree[1]))
     if k in ("num", "str", "col", "null", "word", "param", "bool", "subq", "star"):
         return tree
     if k == "case":
